@@ -489,3 +489,46 @@ Proof.
 Qed.
 
 End Sound.
+
+(* ---- the inference equations produce certified entries ------------------------------------------
+   The dictionary operations of infer_state_of satisfy, by construction, the inclusions the
+   certificate asks for at an scf.if result (intersection of both yields), at a loop result and at a
+   loop head w.r.t. the initial state (intersection with the initial state), and at a setup
+   (update).  What remains for a loop head is "head <= yielded when the body is walked from the
+   head", which the certificate checks on the table (the F1 repair computes the head so that it holds). *)
+Lemma st_keys_nodup_lookup s : nodup_nat (map fst s) = true -> forall f v, In (f, v) s -> st_lookup f s = Some v.
+Proof.
+  induction s as [|[g w] s IH]; intros Hnd f v Hin; [destruct Hin|].
+  simpl in Hnd. apply andb_true_iff in Hnd. destruct Hnd as [Hg Hnd].
+  apply Bool.negb_true_iff in Hg. apply mem_nat_false in Hg.
+  simpl. destruct Hin as [E|Hin].
+  - inversion E; subst. rewrite Nat.eqb_refl. reflexivity.
+  - destruct (Nat.eqb g f) eqn:Eg.
+    + apply Nat.eqb_eq in Eg. subst g. exfalso. apply Hg. apply in_map_iff. exists (f, v). split; [reflexivity|exact Hin].
+    + exact (IH Hnd f v Hin).
+Qed.
+
+Lemma st_sub_refl s : nodup_nat (map fst s) = true -> st_sub s s = true.
+Proof.
+  intros Hnd. unfold st_sub. apply forallb_forall. intros [f v] Hin. simpl.
+  rewrite (st_keys_nodup_lookup s Hnd f v Hin). apply Nat.eqb_refl.
+Qed.
+
+Lemma st_inter_sub_l a b : nodup_nat (map fst a) = true -> st_sub (st_inter a b) a = true.
+Proof.
+  intros Hnd. unfold st_sub, st_inter. apply forallb_forall. intros [f v] Hin. simpl.
+  apply filter_In in Hin. rewrite (st_keys_nodup_lookup a Hnd f v (proj1 Hin)). apply Nat.eqb_refl.
+Qed.
+
+Lemma st_inter_sub_r a b : st_sub (st_inter a b) b = true.
+Proof.
+  unfold st_sub, st_inter. apply forallb_forall. intros [f v] Hin. apply filter_In in Hin. exact (proj2 Hin).
+Qed.
+
+(* a fact survives the intersection iff both sides have it (state_intersection) *)
+Lemma st_inter_In a b f v : In (f, v) (st_inter a b) <-> In (f, v) a /\ st_lookup f b = Some v.
+Proof.
+  unfold st_inter. rewrite filter_In. simpl. split; intros [H1 H2]; split; try exact H1.
+  - destruct (st_lookup f b) as [w|]; [|discriminate]. apply Nat.eqb_eq in H2. subst. reflexivity.
+  - rewrite H2. apply Nat.eqb_refl.
+Qed.
